@@ -37,6 +37,7 @@ def verdict (c : Conn) (r : Req) (o : Outcome) : Option String :=
   match c, o with
   | _, .panic _ => some "C13/panic"
   | .h1, .errInvalidMethod => some "C13/h1-request-rejected"
+  | _, .errProtocol => some "C13/request-rejected"
   | .h1, .sent s =>
     if s.version != .h1 then some "C13/h1-version"
     else if s.method != r.method then some "C13/method-changed"
